@@ -249,6 +249,34 @@ pub fn run_scaled(ctx: &mut Ctx, n_model: usize, n_big: usize, exhaustive_subset
         items.push(Item { case, originals, given: go });
     }
 
+    // (g) MASS LOSS in the largest configurations: as many originals lost as there are recovery shards, tens of thousands of
+    //     erased positions across the whole upper half of the work positions — the logarithms `eval_poly` returns at erased
+    //     positions then take every value, including the two spellings of "zero" (0 and 65535)
+    for n in 0..(n_big / 6).max(if n_big >= 40 { 6 } else { 2 }) {
+        let (k, r) = *ctx.rng.pick(&[(32768usize, 16384usize), (49152, 16384), (40000, 8192), (16384, 32768), (57344, 8192)]);
+        let kind = *ctx.rng.pick(&["default", "rs"]);
+        let engine = if kind == "rs" { "default" } else { *ctx.rng.pick(&["nosimd", "ssse3", "avx2", "default"]) };
+        let cfg = Cfg { kind: kind.into(), engine: engine.into(), k, r, sb: 2 };
+        let originals = gen_originals(&mut ctx.rng, cfg.k, cfg.sb);
+        let Some(recovery) = encode_impl(&cfg, &originals) else {
+            let c = Case::new("mass-loss-encode");
+            ctx.oracle_fail(format!("encode failed for supported {}", cfg.tag()), &c, None);
+            continue;
+        };
+        let lost = r.min(k) - ctx.rng.below(3);
+        let miss: std::collections::BTreeSet<usize> = ctx.rng.subset(k, lost).into_iter().collect();
+        let go: Vec<usize> = (0..k).filter(|i| !miss.contains(i)).collect();
+        let gr = ctx.rng.subset(r, lost);
+        let order: Vec<(bool, usize)> =
+            go.iter().map(|i| (true, *i)).chain(gr.iter().map(|i| (false, *i))).collect();
+        ctx.count("loss_pattern", "mass-loss");
+        ctx.count("kind", &cfg.kind);
+        ctx.count("work_class", "<=65536");
+        let mut case = roundtrip_case(&format!("mass-loss-{}", n), &cfg, &cfg, &originals, &recovery, &order);
+        case.with_model = false;
+        items.push(Item { case, originals, given: go });
+    }
+
     // (f) the decoder object had a LARGER configuration before (one full round there, then `reset`): whatever the
     //     working space and the received-bitmap keep from it must not matter
     for n in 0..(n_model / 4).max(30) {
